@@ -9,6 +9,34 @@ def optRat : Option Rat → String
   | none => "E"
   | some q => renderRat q
 
+/-- `n` events: `A <tree>` / `B <tree>` (edit of the first / second tree: its new structure), `F0` `F1` (false positives and
+    negatives with is_bipartitions_updated False / True), `M0` `M1` (find_missing_bipartitions), `W` (both weighted functions, default) -/
+def parseEvs : Nat → List String → Option (List Ev × List String)
+  | 0, ws => some ([], ws)
+  | n + 1, "A" :: ws => match parseTree ws with
+    | some (t, r) => (parseEvs n r).map (fun p => (Ev.editA t :: p.1, p.2))
+    | none => none
+  | n + 1, "B" :: ws => match parseTree ws with
+    | some (t, r) => (parseEvs n r).map (fun p => (Ev.editB t :: p.1, p.2))
+    | none => none
+  | n + 1, "F0" :: ws => (parseEvs n ws).map (fun p => (Ev.fpfn false :: p.1, p.2))
+  | n + 1, "F1" :: ws => (parseEvs n ws).map (fun p => (Ev.fpfn true :: p.1, p.2))
+  | n + 1, "M0" :: ws => (parseEvs n ws).map (fun p => (Ev.missing false :: p.1, p.2))
+  | n + 1, "M1" :: ws => (parseEvs n ws).map (fun p => (Ev.missing true :: p.1, p.2))
+  | n + 1, "W" :: ws => (parseEvs n ws).map (fun p => (Ev.weighted :: p.1, p.2))
+  | _, _ => none
+
+/-- what each call event of a history returns, the state threaded through `step` -/
+def histOut (st : TreeObj × TreeObj) : List Ev → List String
+  | [] => []
+  | e :: es =>
+    (match e with
+      | .fpfn u => [match (fpfnCall u st.1 st.2).1 with | some (a, b) => s!"{a} {b}" | none => "refused"]
+      | .missing u => [match (missingCall u st.1 st.2).1 with
+          | some ms => "m " ++ " ".intercalate (ms.map toString) | none => "refused"]
+      | .weighted => [match (weightedCall st.1 st.2).1 with | some (w, e) => s!"{optRat w} {optRat e}" | none => "refused"]
+      | _ => []) ++ histOut (step st e) es
+
 def handle (ws : List String) : String :=
   match ws with
   -- dist <rooting1> <rooting2> <tree1> <tree2>  ->  fp fn wrf euclid² | sorted missing(ref=tree1, cmp=tree2)
@@ -50,6 +78,24 @@ def handle (ws : List String) : String :=
         | none => "bad-op"
       | none => "bad-op"
     | _, _, _, _, _, _, _, _ => "bad-op"
+  -- hist <ns1> <ns2> <rooting1> <rooting2> <tree1> <tree2> <n> <event>*n  ->  result of every call event, `;`-separated, then
+  --   `| e1 e2`: whether each tree object carries a stored encoding after `run`ning the whole history
+  | "hist" :: ns1 :: ns2 :: r1 :: r2 :: rest =>
+    match ns1.toNat?, ns2.toNat?, parseRooted r1, parseRooted r2, parseTree rest with
+    | some ns1, some ns2, some r1, some r2, some (t1, rest1) =>
+      match parseTree rest1 with
+      | some (t2, n :: rest2) =>
+        match n.toNat? with
+        | some n =>
+          match parseEvs n rest2 with
+          | some (evs, []) =>
+            let st : TreeObj × TreeObj := (⟨ns1, r1, t1, none⟩, ⟨ns2, r2, t2, none⟩)
+            let fin := run evs st
+            ";".intercalate (histOut st evs) ++ s!" | {if fin.1.enc.isSome then 1 else 0} {if fin.2.enc.isSome then 1 else 0}"
+          | _ => "bad-op"
+        | none => "bad-op"
+      | _ => "bad-op"
+    | _, _, _, _, _ => "bad-op"
   | _ => "bad-op"
 
 def main : IO Unit := do driverLoop (← IO.getStdin) handle
